@@ -351,6 +351,7 @@ func BaseFormCorpus(dir string) []CorpusEntry {
 		{"srv-root", "servers: [{url: /}]\n", ""},
 		{"srv-trailing", "servers: [{url: 'https://example.com/v1/'}]\n", ""},
 		{"flag-trailing", "", "/v2/"},
+		{"srv-escaped", "servers: [{url: 'https://example.com/caf%C3%A9/v 1'}]\n", ""},
 	}
 	for _, bf := range forms {
 		name := "base-" + bf.name
